@@ -596,6 +596,7 @@ def jobField (rs : Ress) (nd : Node) (idx sd : Dict Key) (f : Fld) : M Val :=
 
 def jobOut (rs : Ress) (nd : Node) (job : Dict Key × Dict Key) : M Val := do
   return nd.encode (← jobField rs nd job.1 job.2 .x) (← jobField rs nd job.1 job.2 .y) (← jobField rs nd job.1 job.2 .z)
+    (← jobField rs nd job.1 job.2 .u) (← jobField rs nd job.1 job.2 .v)
 
 /-- `NodeExecution.start` for a node with a state: `prepare_states`, `prepare_inputs`, `_split_task`. -/
 def runStateful (nodes : List Node) (sts : Sts) (rs : Ress) (nd : Node) (s : St) : M (Sts × RunRes) := do
@@ -629,7 +630,9 @@ def runNode (nodes : List Node) (sts : Sts) (rs : Ress) (nd : Node) : M (Sts × 
     let vx ← resolveField rs nd .x none
     let vy ← resolveField rs nd .y none
     let vz ← resolveField rs nd .z none
-    return (sts, { hasState := false, outs := [nd.encode vx vy vz] })
+    let vu ← resolveField rs nd .u none
+    let vv ← resolveField rs nd .v none
+    return (sts, { hasState := false, outs := [nd.encode vx vy vz vu vv] })
   | some s => runStateful nodes sts rs nd s
 
 /-- Every node's outcome, computed in construction order: its result, or the exception its start raises; a node behind a
